@@ -1,0 +1,12 @@
+//go:build verif
+// +build verif
+
+package leanhelixterm
+
+import "github.com/orbs-network/lean-helix-go/services/termincommittee"
+
+func (lht *LeanHelixTerm) VerifTermInCommittee() *termincommittee.TermInCommittee {
+	return lht.termInCommittee
+}
+
+func (lht *LeanHelixTerm) VerifRandomSeed() uint64 { return lht.randomSeed }
